@@ -201,7 +201,7 @@ func TestVerifC15(t *testing.T) {
 	defer r.Finish()
 	module.RegisterInstance(c15U2E, nil)
 	module.RegisterInstance(c15Prep, nil)
-	r.Rule("entitlement tables {identity, address lists, domain entry, '*'} x prepare_email {identity, alias map} x normalisation {auto, noop} x authenticated user {entitled, other, none; case / NFD spellings} x MAIL FROM {entitled, alias, spelling variants incl. A-label, not entitled, a sharp-s domain next to its ss twin} x header layouts {single From, two addresses in one From, two From fields in both orders, group syntax, display name containing an address, RFC 2047 display name, folded field, missing From} x Sender {absent, entitled, not entitled}; thorough tier: more addresses (subdomain, suffix-confusable domains, plus-tag, upper-case alias), layouts (bare addr-spec, comments, three From fields, group followed by an address, folded lists, empty first line) and Sender shapes (display name, two Sender fields, upper-case); each through the real check.authorize_sender initialised from configuration (CheckSender + CheckBody); oracle: every acceptance is justified by the reference entitlement function (authenticated, envelope sender entitled, every address of every From field entitled or an entitled Sender present). Non-trivial: distinct accepted cases")
+	r.Rule("entitlement tables {identity, address lists, domain entry, '*'} x prepare_email {identity, alias map} x normalisation {auto, noop} x authenticated user {entitled, other, none; case / NFD spellings} x MAIL FROM {entitled, alias, spelling variants incl. A-label, not entitled, a sharp-s domain next to its ss twin} x header layouts {single From, two addresses in one From, two From fields in both orders, group syntax, display name containing an address, RFC 2047 display name, folded field, missing From, an empty From field before / after a filled one} x Sender {absent, entitled, not entitled}; thorough tier: more addresses (subdomain, suffix-confusable domains, plus-tag, upper-case alias), layouts (bare addr-spec, comments, three From fields, group followed by an address, folded lists, empty first line) and Sender shapes (display name, two Sender fields, upper-case); each through the real check.authorize_sender initialised from configuration (CheckSender + CheckBody); oracle: every acceptance is justified by the reference entitlement function (authenticated, envelope sender entitled, every address of every From field entitled or an entitled Sender present). Non-trivial: distinct accepted cases")
 	if rp := r.Replay(); rp != nil {
 		var c c15Case
 		if json.Unmarshal(rp, &c) != nil {
@@ -262,6 +262,8 @@ func TestVerifC15(t *testing.T) {
 			"From: Some\r\n One\r\n <" + a + ">\r\n",
 			"Subject: no author\r\n",
 			"from: <" + a + ">\r\nFROM: <" + b + ">\r\n",
+			"From:\r\nFrom: <" + a + ">\r\n",
+			"From: <" + a + ">\r\nFrom:\r\n",
 		}...)
 	}
 	idx := 0
